@@ -206,7 +206,7 @@ def gen_dataset(rng, opts=None):
                 b["error"] = "connecting..."
             elif r < 0.45:
                 b["state"] = "broken"
-                b["error"] = "got more services than expected"
+                b["error"] = "broken: got more services than expected. Hint: check clients 'max_response_size' setting."
             elif r < 0.55:
                 b["state"] = "warning"
                 b["error"] = "read timeout"
